@@ -171,7 +171,9 @@ def _decoy_once():
 
 def make_market(frames, name="aave", tokens=None):
     _decoy_once()
-    m = AaveV3Market(MarketInfo(name, MarketTypeEnum.aave_v3), risk_csv_path(), tokens or list(TOKENS))
+    # only the first two tokens are DECLARED to the market (tokens=); the others have data and are used all the same (the library's own fixtures declare
+    # tokens=[weth] and borrow DAI): what a market does with a token does not depend on whether it was announced
+    m = AaveV3Market(MarketInfo(name, MarketTypeEnum.aave_v3), risk_csv_path(), list(tokens or TOKENS)[:2])
     for t in (tokens or TOKENS):
         m.set_token_data(t, frames[t.name])
     return m
